@@ -31,7 +31,12 @@ import (
 // the model's ordering by name id is the implementation's ordering by string.
 var names = []string{"._H", "._h", "A", "B", "a", "b", "c", "d"}
 
-var hiddenPattern = regexp.MustCompile(`^\._`)
+// Hidden-files patterns of the configuration space. The matcher is applied to the
+// ORIGINAL name of an entry, never to its normalised form (model: `P.hidden e.name`;
+// reference: hidden[e.name]): the second pattern needs an upper-case character, so
+// under the case-folding normaliser "._H" is hidden although its normal form "._h"
+// does not match, and "._h" is an ordinary file.
+var hiddenPatterns = []*regexp.Regexp{regexp.MustCompile(`^\._`), regexp.MustCompile(`^\._H$`)}
 
 var ctx = context.Background()
 
@@ -160,8 +165,9 @@ type runner struct {
 	fail       *finding
 	mm         *finding
 
-	feMode bool       // kernel-facing calls go through a front end (FUSE or NFSv4.0)
-	fe     *frontEnds // set once the first root exists
+	hiddenRe *regexp.Regexp
+	feMode   bool       // kernel-facing calls go through a front end (FUSE or NFSv4.0)
+	fe       *frontEnds // set once the first root exists
 
 	park *parkState // a listing is running concurrently (concurrent-listing mode)
 	rec  *[]lineRec // when set: one record per applied line
@@ -299,6 +305,9 @@ func nameID(s string) int {
 
 func (r *runner) configure(fold, nfs bool) {
 	r.fold, r.nfs, r.configured = fold, nfs, true
+	if r.hiddenRe == nil {
+		r.hiddenRe = hiddenPatterns[0]
+	}
 	g := rng{hx.NewRand(r.seed + 77)}
 	if nfs {
 		r.ha = virtual.NewNFSHandleAllocator(g)
@@ -324,7 +333,7 @@ func (r *runner) configure(fold, nfs bool) {
 		if fold {
 			norm[i] = nameID(strings.ToLower(n))
 		}
-		hidden[i] = hiddenPattern.MatchString(n)
+		hidden[i] = r.hiddenRe.MatchString(n)
 	}
 	for i := range names {
 		cfg = append(cfg, strconv.Itoa(norm[i]))
@@ -346,7 +355,7 @@ func (r *runner) configure(fold, nfs bool) {
 func (r *runner) newRoot() virtual.PrepopulatedDirectory {
 	setter := func(requested virtual.AttributesMask, attributes *virtual.Attributes) {}
 	return virtual.NewInMemoryPrepopulatedDirectory(r.fileAllocator, r.symlinkFactory, nullLogger{}, r.ha,
-		sort.Sort, hiddenPattern.MatchString, clock.SystemClock, r.normalizer, setter, virtual.NoNamedAttributesFactory)
+		sort.Sort, r.hiddenRe.MatchString, clock.SystemClock, r.normalizer, setter, virtual.NoNamedAttributesFactory)
 }
 
 // ---- identity binding ------------------------------------------------------------
@@ -1035,11 +1044,14 @@ func (r *runner) apply1(line string) {
 		return
 	}
 	if f[0] == "config" {
-		if r.configured || (len(f) != 3 && len(f) != 4) {
+		if r.configured || len(f) < 3 || len(f) > 5 {
 			r.skip()
 			return
 		}
-		r.feMode = len(f) == 4 && f[3] == "1"
+		r.feMode = len(f) >= 4 && f[3] == "1"
+		if len(f) == 5 && f[4] == "1" {
+			r.hiddenRe = hiddenPatterns[1]
+		}
 		r.configure(f[1] == "1", f[2] == "1")
 		return
 	}
@@ -1648,7 +1660,7 @@ func (r *runner) clist(line string, f []string) {
 		if ent, ok := rd.ents[nameID(de.NormalizedName)]; ok && ent.name == id {
 			pk.cookies[ent.gen] = de.Cookie
 		}
-		if de.Cookie < uint64(c) || (de.Directory == nil && hiddenPattern.MatchString(de.Name)) {
+		if de.Cookie < uint64(c) || (de.Directory == nil && r.hiddenRe.MatchString(de.Name)) {
 			continue
 		}
 		if de.Directory != nil && any(de.Directory) == cd {
@@ -2421,6 +2433,59 @@ func (g *generator) concurrentScenario() []string {
 	return append(lines, fmt.Sprintf("clist %d %d %d %d", d, child, c, k))
 }
 
+// hiddenOnlyScenario: a directory whose only entries are files with hidden names
+// (every name variant, so that patterns depending on the case are exercised) is
+// listed and then removed, removed in bulk, or has another directory renamed over it.
+func (g *generator) hiddenOnlyScenario() []string {
+	r := g.r
+	d := g.pickDir()
+	p := r.implDir(d)
+	if p == nil {
+		return nil
+	}
+	rd := r.rDirOf[p]
+	if rd == nil || rd.removed || rd.pending != nil {
+		return nil
+	}
+	n := g.absentName(rd, nil)
+	var hid []int
+	for i := range names {
+		if r.ref.hidden[i] {
+			hid = append(hid, i)
+		}
+	}
+	if n < 0 || len(hid) == 0 {
+		return nil
+	}
+	nd := len(r.mDirs) // id the new directory gets (model and harness count alike here)
+	if r.drv != nil {
+		if dd, _, _, ok := r.modelSizes(); ok {
+			nd = dd
+		}
+	}
+	lines := []string{fmt.Sprintf("mkdir %d %d", d, n)}
+	h := hid[g.rnd.Intn(len(hid))]
+	if g.rnd.Chance(1, 2) {
+		lines = append(lines, fmt.Sprintf("open %d %d 1 0", nd, h))
+	} else {
+		lines = append(lines, fmt.Sprintf("mknod %d %d %d", nd, h, 1+g.rnd.Intn(3)))
+	}
+	if g.rnd.Chance(1, 2) {
+		lines = append(lines, fmt.Sprintf("readdir %d 0 5", nd))
+	}
+	switch g.rnd.Pick(3, 2, 2) {
+	case 0:
+		lines = append(lines, fmt.Sprintf("vremove %d %d 1 %d", d, n, g.rnd.Intn(2)))
+	case 1:
+		lines = append(lines, fmt.Sprintf("remove %d %d", d, n))
+	default:
+		if m := g.absentName(rd, map[int]bool{r.ref.norm[n]: true}); m >= 0 {
+			lines = append(lines, fmt.Sprintf("mkdir %d %d", d, m), fmt.Sprintf("rename %d %d %d %d", d, m, d, n))
+		}
+	}
+	return lines
+}
+
 // whileParked: mostly what makes the parked listing interesting — the entry it
 // waits on goes away, entries before / after it come and go — and the join.
 func (g *generator) whileParked() []string {
@@ -2457,6 +2522,10 @@ func (g *generator) next() []string {
 		}
 	} else if g.concurrent && g.rnd.Chance(1, 25) {
 		if ls := g.concurrentScenario(); ls != nil {
+			return ls
+		}
+	} else if g.rnd.Chance(1, 40) {
+		if ls := g.hiddenOnlyScenario(); ls != nil {
 			return ls
 		}
 	}
@@ -2742,7 +2811,7 @@ func generate(rnd *hx.Rand, drv *hx.Driver, seed uint64, n int) ([]string, outco
 	r := newRunner(drv)
 	r.seed = seed
 	g := &generator{rnd: rnd, r: r, roots: 1, concurrent: rnd.Chance(1, 4)}
-	lines := []string{fmt.Sprintf("config %d %d %d", b2i(rnd.Chance(1, 2)), b2i(rnd.Chance(1, 2)), b2i(rnd.Chance(feShare, 12))), "newroot 0"}
+	lines := []string{fmt.Sprintf("config %d %d %d %d", b2i(rnd.Chance(1, 2)), b2i(rnd.Chance(1, 2)), b2i(rnd.Chance(feShare, 12)), b2i(rnd.Chance(1, 3))), "newroot 0"}
 	for _, l := range lines {
 		r.apply(l)
 	}
@@ -2777,7 +2846,7 @@ func generate(rnd *hx.Rand, drv *hx.Driver, seed uint64, n int) ([]string, outco
 
 func main() {
 	o := hx.ParseFlags()
-	res := hx.NewResult("dir", o, "random histories (≤300 ops) over ≤2 roots, ~6 live directories and 8 names (case variants, two matching the hidden pattern ^\\._), "+
+	res := hx.NewResult("dir", o, "random histories (≤300 ops) over ≤2 roots, ~6 live directories and 8 names (case variants; hidden-files pattern ^\\._ matching two of them, or - a third of the histories - ^\\._H$ which needs an upper-case character and matches one; the matcher is applied to the original name, not the normalised one), "+
 		"case-sensitive or case-folding normaliser, FUSE or NFS handle allocator, mixing every Virtual* call with LookupChild/LookupAllChildren/ReadDir/Remove/RemoveAll/"+
 		"RemoveAllChildren/CreateChildren(overwrite, lazy sub-directories)/CreateAndEnterPrepopulatedDirectory/FilterChildren/InstallHooks, paginated VirtualReadDir (page size 1-10, resumed from the "+
 		"last, an earlier or an arbitrary cookie) interleaved with the mutations, fetcher and allocator faults; in a quarter of the histories also listings that run concurrently with the mutations "+
